@@ -190,9 +190,11 @@ func (ld *Loader) expandSweeps(sp *Specs) {
 				ct = &Contract{Key: k, Pkg: fn.Pkg.Pkg.Path(), Loops: map[int]*LoopSpec{}, Where: sw.File, Thin: true}
 				sp.Contracts[k] = ct
 			}
-			if ct.External || ct.Trusted {
+			if ct.External {
 				continue
 			}
+			// a trusted contract is an assumption for the function's callers; the function's own body is still swept for
+			// panics and allocations (see runCheck)
 			ct.SweepProps = append(ct.SweepProps, sw.Prop)
 		}
 		for _, cf := range sp.CtxFlowFiles {
